@@ -29,6 +29,7 @@ type Case struct {
 	Spelling string `json:"spelling,omitempty"` // create: how the outside input is spelled
 	Unsaved  bool   `json:"unsaved,omitempty"`  // par1: the hostile entry is not saved in the parity volume set
 	Empty    bool   `json:"empty,omitempty"`    // par1: the hostile entry declares a zero-length file
+	MainLast bool   `json:"main_last,omitempty"` // par2: the main packet comes after the file description and checksum packets in every file
 }
 
 const nest = "l1/l2/l3/l4/l5/arch"
@@ -129,6 +130,18 @@ func check(c Case) (string, bool) {
 				kept = append(kept, p)
 			}
 			crit = kept
+		}
+		if c.MainLast {
+			// packet order is free: descriptions first, the main packet last
+			var mains, others []par2ref.Packet
+			for _, p := range crit {
+				if p.Type == par2ref.TypeMain {
+					mains = append(mains, p)
+				} else {
+					others = append(others, p)
+				}
+			}
+			crit = append(others, mains...)
 		}
 		idx = filepath.Join(arch, "set.par2")
 		os.WriteFile(idx, par2ref.EncodeAll(append([]par2ref.Packet{set.CreatorPacket()}, crit...)), 0o644)
@@ -301,6 +314,7 @@ func TestCheck(t *testing.T) {
 					do(Case{Format: format, Name: n, Pos: pos, Present: present})
 					if format == "par2" {
 						do(Case{Format: format, Name: n, Pos: pos, Present: present, Empty: true})
+						do(Case{Format: format, Name: n, Pos: pos, Present: present, MainLast: true})
 					}
 					if format == "par1" {
 						do(Case{Format: format, Name: n, Pos: pos, Present: present, Unsaved: true, Empty: true})
